@@ -11,9 +11,9 @@ import (
 func SetBits(v reflect.Value, bits uint64) {
 	switch v.Kind() {
 	case reflect.Float32:
-		*(v.Addr().Interface().(*float32)) = math.Float32frombits(uint32(bits))
+		*(*float32)(v.Addr().UnsafePointer()) = math.Float32frombits(uint32(bits)) // (also for defined types over float32)
 	case reflect.Float64:
-		*(v.Addr().Interface().(*float64)) = math.Float64frombits(bits)
+		*(*float64)(v.Addr().UnsafePointer()) = math.Float64frombits(bits)
 	case reflect.Int8:
 		v.SetInt(int64(int8(bits)))
 	case reflect.Int16:
